@@ -368,3 +368,34 @@ def run(run):
                 run.sample({"source": driver.src_of(bench, "d"), "derived_from": raw, "values": mr.value.to_json()})
         if run.counters["violations"] > 40:
             break
+
+
+def replay(run, rec):
+    """Re-executes the recorded (pattern, string) judgement."""
+    from bisturi import pattern_matching as pm
+    w = rec["witness"]
+    if "fam" not in w:
+        print("bit-field pattern witness:", {k: w[k] for k in w if k != "source"})
+        return
+    fam = common.from_json(w["fam"])
+    d = common.scratch_dir("bvf_replay_")
+    bench = harness.Bench(fam, VARIANTS, d, instrument=())
+    pv = model.val_from_json(w["values"])
+    anys = {k: {a: common.from_json(b) for a, b in kw.items()} for k, kw in (w.get("constrained_any") or {}).items()}
+    pattern = make_pattern(bench, fam, pv, set(w["fixed_fields"]), anys)
+    try:
+        rx = pattern.as_regular_expression()
+    except Exception as e:
+        run.violation("as_regular_expression() raised %s: %s" % (type(e).__name__, str(e)[:120]), w, None)
+        return
+    if "string" not in w:
+        return
+    r = common.from_json(w["string"])
+    u = bench.root("d").unpack(r, silent=True)
+    print("regexp:", rx.pattern)
+    print("unpacks:", u is not None, " equal to pattern:", (pattern == u) if u is not None else None, " regexp matches:", bool(rx.match(r)))
+    if u is not None and (pattern == u) and not rx.match(r):
+        mech = classify_false_negative(fam, set(w["fixed_fields"]), monitors.pkt_to_pv(fam, fam["root"], u))
+        if mech is None and context_dependent_delimiter(fam, set(w["fixed_fields"]), r):
+            mech = "context-dependent-regex-delimiter"
+        run.violation("the regexp pre-filter rejects a string that unpacks to a packet equal to the pattern", w, mech)
